@@ -46,22 +46,41 @@ def run_pt(system, oper, corr, rho0, start, dt, nsteps, params, unique,
            subdiv_limit=256, file_backed=False, reimport=None, on_grid=False):
     """PT-TEMPO + compute_dynamics; with file_backed the process tensor is
     computed straight into an HDF5 file (removed afterwards)."""
+    import oqupy
+    return run_pt_bath(system, oqupy.Bath(oper, corr), rho0, start, dt,
+                       nsteps, params, unique, subdiv_limit, file_backed,
+                       reimport, on_grid)
+
+
+def run_pt_bath(system, bath, rho0, start, dt, nsteps, params, unique,
+                subdiv_limit=256, file_backed=False, reimport=None,
+                on_grid=False, num_steps=None, end=None, reopen=None):
+    """run_pt for a ready-made Bath. file_backed: True (own temporary file
+    name) or "auto" (process_tensor_file=True: the library picks the file)."""
     import os
     import tempfile
     import oqupy
-    bath = oqupy.Bath(oper, corr)
     fn = None
-    if file_backed:
+    if file_backed == "auto":
+        fn = True
+    elif file_backed:
         fd, fn = tempfile.mkstemp(prefix="vp_pt_", suffix=".hdf5")
         os.close(fd)
         os.remove(fn)
     try:
         pt = oqupy.pt_tempo_compute(bath, start,
+                                    end if end is not None else
                                     end_time(start, dt, nsteps, on_grid),
                                     params, unique=unique,
                                     process_tensor_file=fn,
                                     progress_type="silent")
         fn2 = None
+        pt_orig = pt
+        if reopen is not None and isinstance(fn, str):
+            # the file written by the computation, closed and opened again
+            pt.close()
+            pt = oqupy.import_process_tensor(fn, reopen)
+            pt_orig = pt
         if reimport is not None:
             fd, fn2 = tempfile.mkstemp(prefix="vp_pt_", suffix=".hdf5")
             os.close(fd)
@@ -71,6 +90,7 @@ def run_pt(system, oper, corr, rho0, start, dt, nsteps, params, unique,
         try:
             dyn = oqupy.compute_dynamics(system, rho0, start_time=start,
                                          process_tensor=pt,
+                                         num_steps=num_steps,
                                          subdiv_limit=subdiv_limit,
                                          progress_type="silent")
         finally:
@@ -82,9 +102,14 @@ def run_pt(system, oper, corr, rho0, start, dt, nsteps, params, unique,
                 if os.path.exists(fn2):
                     os.remove(fn2)
     finally:
-        if fn is not None:
+        if fn is True:
             try:
-                pt.close()
+                pt_orig.remove()  # the library's own temporary file
+            except Exception:   # noqa
+                pass
+        elif fn is not None:
+            try:
+                pt_orig.close()
             except Exception:   # noqa
                 pass
             if os.path.exists(fn):
